@@ -368,6 +368,7 @@ def step_harness(shape):
             obs.append(("c02:duration", cs.get_duration() == cs.slots[-1].tf))
             obs.append(("c02:duration_fall", cs.get_duration(include_fall_time=True) == ref_duration_with_fall(cs)))
         obs.append(("c02:seq_duration", sched.get_duration() == smax([cs.slots[-1].tf for cs in sched.values()])))
+        obs.append(("c02:seq_duration_fall", sched.get_duration(include_fall_time=True) == smax([ref_duration_with_fall(cs) for cs in sched.values()])))
         if sched.max_duration is not None:
             for cs in sched.values():
                 obs.append(("c01:max_sequence_duration", cs.slots[-1].tf <= sched.max_duration))
